@@ -325,6 +325,51 @@ CHECKS = {
         "trusted_base": ["model: coq/theories/Model/Expiry.v (system_time_to_ntp, ntp_to_system_time, parse_u32, fdt_push, update_expired_state, push_fdt, push_obj, obj_end, cleanup, run)",
                          "spec: coq/theories/Spec/C19Spec.v (estimate, pkt_justifies, P_C19_sound, P_C19_silent, P_C19_same, P_C19_session, session_events)"],
     },
+    "C10": {
+        "extract": "C10", "driver": "c10",
+        "runs": [{"subcmd": "fdt", "shards_quick": 4, "shards_thorough": 16}],
+        "parallel": 8,
+        "rule": "F lines: one whole scenario per line - the real Sender (session OTI No-Code / RS28 / RS28-US / RaptorQ / Raptor, FDT "
+                "content encodings null/zlib/deflate/gzip, both FDT publish modes, FDT durations 1 s .. 3 days incl. 2.5 s and 10.5 s, FDT "
+                "start id 0, 1, 77, 2^20-2, 2^20-1 and random, instance-level groups, multiplex_files 0..3) driven by seeded operation "
+                "scripts add / publish / remove / set_complete / read / read-until-idle under a virtual clock with fine and coarse steps "
+                "(crossing the FDT expiry); objects of 0..3 symbols with adversarial Content-Type / ETag / group strings (quotes, &, <, >, "
+                "entity-like text, ]]>, non-ASCII up to 4-byte UTF-8, leading/trailing blanks, empty, 200..3000 bytes long; thorough up to "
+                "20000; 2% of the scenarios with a TAB/LF/CR = class D32), Content-Locations given as URL strings that the url crate "
+                "normalises (3% unparsable), content encodings, MD5 on/off, per-object OTI (No-Code, RS28, RS28-US, RaptorQ, Raptor; "
+                "in-band FTI on/off), Cache-Control none / no-cache / max-stale / Expires(duration) / ExpiresAt(instant), max_transfer_count "
+                "1..2, carousel; plus, in shard 0, the grid {FullFDT, being-transferred} x start id {0, 1, 2^20-2, 2^20-1} x duration "
+                "{1, 5, 10, 12, 31, 3600 s} polled across the expiry (id wrap, republication). Observed per operation: result, objects in the "
+                "FDT with transfer counters, observer events, Sender::fdt_xml_data (+ flute's own parse of it), every FDT instance "
+                "reassembled from the source symbols of the TOI-0 packets; a flute Receiver fed with every packet reports the instances and "
+                "the per-object metadata its writer builder receives. The extracted control model is stepped on the same script and "
+                "compared op by op; every XML document is parsed by the extracted reference parser, compared with the model's abstract "
+                "instance (files in any order) and judged by P_C10_wellformed / P_C10_instance; flute's parse by P_C10_content; receiver "
+                "metadata by P_C10_meta; ids by P_C10_ids / P_C10_window; each republication by P_C10_superseded (class D22). "
+                "Non-trivial = at least 2 documents checked, at least one listing a file, at least one packet sent; distinct = distinct "
+                "scenario lines.",
+        "level_text": "Theorems C10_*: the reference XML parser reads back every abstract instance from its reference printing for ALL byte strings (and from flute's escaping whenever no string has a control byte); for every configuration, instant and accepted object descriptions the document the model emits is read as exactly what the sender was given (TOI, location, lengths, type, encoding, MD5, OTI in use incl. Raptor/RaptorQ Z, cache directive, ETag, groups, Expires, Complete, FullFDT); Expires = NTP seconds of the publication + validity; a publication lists exactly the FDT's objects (FullFDT) / those in transmission; for EVERY operation history the FDT = added - removed - finished; the k-th publication carries (start+k) mod 2^20 for any start < 2^20 and ids differ within any window of 2^20 publications; outside class D22 (poll gap + sub-second parts >= margin 5 s/1 s/0) the poll that republishes is strictly before the expiry instant, the test fires at the latest after the validity, and the firing poll creates the successor; flute's receiver (model of get_oti / cache control / attach_fdt / create_meta, base64 decoder proved inverse to the encoder) reading the emitted instance hands the writer builder the metadata the sender was given. Tied to the code by op-by-op differential runs of the real Sender and by parsing every emitted instance with the extracted reference parser.",
+        "explanation": "Theorems C10_* are proved for all byte strings / configurations / operation histories on the Gallina models of "
+                       "the FDT instance content (Model/FdtInst.v: fdt.rs get_fdt_instance, filedesc.rs to_file_xml + FileDesc::new OTI, "
+                       "objectdesc.rs cache control, oti.rs attributes; code with fixes/D18 and fixes/D31) and of the sender control plane "
+                       "(Model/SenderCtl.v), with the reference XML printer/parser of Model/Xml.v as the independent parser. The check ties "
+                       "them to the code: same operation scripts on the real Sender, every emitted XML document (fdt_xml_data, TOI-0 "
+                       "reassembly, receiver side) parsed by the extracted reference parser and compared with the model's abstract instance; "
+                       "the Coq-defined predicates P_C10_* are evaluated on the implementation's documents, on flute's own parse result and "
+                       "on the metadata flute's receiver hands to the writer builder.",
+        "assumptions": ["quick-xml's serializer is not modelled: the XML flute emits is validated instance by instance by the verified reference parser",
+                        "reference parser: XML 1.0 subset without DOCTYPE/CDATA, names matched by local name (namespace URIs not resolved), "
+                        "character references to any code point < 0x110000 accepted, ']]>' in text accepted; UTF-8 validity checked separately (utf8_ok)",
+                        "url::Url normalisation of Content-Location is outside: compared is content_location.to_string() of the Url the sender was given",
+                        "MD5 / compressed length of an object are inputs (read from the ObjectDesc before it is added)",
+                        "FileDesc::new acceptance beyond the Raptor/RaptorQ block-count limits is an oracle (C01/C08)",
+                        "control model: block encoder abstracted to a packet counter (C08), TOIs distinct (C15), FDT packet count per instance from its FTI",
+                        "publication instants between 1970 and 2036 (NTP era 0)",
+                        "model of to_file_xml / get_fdt_instance is the code with fixes/D18-per-object-groups.patch and fixes/D31-raptor-per-file-oti.patch applied"],
+        "trusted_base": ["model: coq/theories/Model/Xml.v (reference printer/parser), Model/FdtInst.v, Model/FdtRecv.v (receiver-side extraction, compared with the real receiver's ObjectMetadata on every object), Model/SenderCtl.v",
+                         "spec: coq/theories/Spec/C10Spec.v (parse_dec, eff_oti, spec_nb_blocks, P_C10_*)"],
+        "coq_timeout": 1500,
+    },
 }
 
 
